@@ -15,6 +15,7 @@ NOT_BUILT = {
  'C02': "the SSE transport's POST validation (the streamable `servePOST` pre-validation is built: `zzC02Prevalidation`).",
  'C03': "H2 as a scheduler search: ordering is decided by the (A) queue-step harness instead (H4, 202-after-enqueue, is built: `zzC03Accepted`).",
  'C05': "H3 (global deadlock-freedom search, lock-order graph); `ClientSession.Close` (symmetric to the server side) is not instantiated.",
+ 'C07': "nothing of the plan; not covered: races inside `Server.Connect` (seeded C07c, §8).",
  'C08': "built as an exhaustive bounded exploration of one logical stream (all splits, cursors, generations) rather than as an (A) invariant step; concurrent writers racing with `acquireStream` are outside.",
  'C10': "the heap-ownership closure argument for cross-session isolation (cross-session access control is C11).",
  'C15': "URL tokens were replaced by concrete URL alphabets parsed by the real `net/url` (§2.3).",
